@@ -1,4 +1,5 @@
 import CotengraVerif.Model.Stats
+import CotengraVerif.Model.AssocList
 
 /-!
   Model of `HyperGraph` (cotengra/hypergraph.py:26-338), `CompressedStatsTracker`
@@ -15,19 +16,6 @@ import CotengraVerif.Model.Stats
 namespace Cotengra
 
 namespace HGu
-/-- python `dict` keyed by naturals -/
-def get? {α : Type} : List (Nat × α) → Nat → Option α
-  | [], _ => none
-  | (k, v) :: t, x => if k = x then some v else get? t x
-
-def set {α : Type} : List (Nat × α) → Nat → α → List (Nat × α)
-  | [], x, v => [(x, v)]
-  | (k, w) :: t, x, v => if k = x then (k, v) :: t else (k, w) :: set t x v
-
-def del {α : Type} (d : List (Nat × α)) (x : Nat) : List (Nat × α) := d.filter (fun kv => kv.1 != x)
-
-def has {α : Type} (d : List (Nat × α)) (x : Nat) : Bool := (get? d x).isSome
-
 /-- `unique(it)`: order preserving de-duplication -/
 def dedup : List Nat → List Nat
   | [] => []
@@ -41,7 +29,7 @@ def insertSorted (x : Nat) : List Nat → List Nat
 def toSet (l : List Nat) : List Nat := l.foldl (fun acc x => insertSorted x acc) []
 end HGu
 
-open HGu
+open HGu AL
 
 structure HG where
   nodes : List (Nat × List Ix)
@@ -80,36 +68,42 @@ def neighborhoodSize (h : HG) (ns : List Nat) : Nat :=
   let nb := dedup (ns.flatMap fun n => (h.getNode n).flatMap fun e => h.getEdge e)
   (nb.map h.nodeSize).sum
 
+/-- one iteration of the loop of `remove_node` over the node's edges; `none` = `KeyError`
+    (`self.edges[e]` of a repeated, already deleted edge) -/
+def removeNodeStep (i : Nat) (acc : Option (List (Ix × List Nat))) (e : Ix) :
+    Option (List (Ix × List Nat)) :=
+  match acc with
+  | none => none
+  | some ed =>
+    match get? ed e with
+    | none => none
+    | some ns =>
+      let ns' := ns.filter (· != i)
+      some (if ns'.isEmpty then del ed e else set ed e ns')
+
 /-- `remove_node(i)` (:257-264); `none` = `KeyError` -/
 def removeNode (h : HG) (i : Nat) : Option (List Ix × HG) :=
   match get? h.nodes i with
   | none => none
   | some inds =>
-    let step := fun (acc : Option (List (Ix × List Nat))) (e : Ix) =>
-      match acc with
-      | none => none
-      | some ed =>
-        match get? ed e with
-        | none => none                     -- `self.edges[e]` of a repeated, already deleted edge
-        | some ns =>
-          let ns' := ns.filter (· != i)
-          some (if ns'.isEmpty then del ed e else set ed e ns')
-    match inds.foldl step (some h.edges) with
+    match inds.foldl (removeNodeStep i) (some h.edges) with
     | none => none
     | some ed => some (inds, { h with nodes := del h.nodes i, edges := ed })
 
+/-- the `while self.node_counter in self.nodes` loop of `next_node` -/
+def nextFree (nodes : List (Nat × List Ix)) : Nat → Nat → Nat
+  | 0, c => c
+  | f + 1, c => if has nodes c then nextFree nodes f (c + 1) else c
+
 /-- `next_node()` (:235-241) -/
 def nextNode (h : HG) : Nat × HG :=
-  let rec go (fuel c : Nat) : Nat :=
-    match fuel with
-    | 0 => c
-    | f + 1 => if has h.nodes c then go f (c + 1) else c
-  let c := go (h.nodes.length + 1) h.nextCand
+  let c := nextFree h.nodes (h.nodes.length + 1) h.nextCand
   (c, { h with nextCand := c + 1 })
 
 /-- `add_node(inds)` (:243-255) with `node=None` -/
 def addNode (h : HG) (inds : List Ix) : Nat × HG :=
-  let (node, h1) := h.nextNode
+  let node := h.nextNode.1
+  let h1 := h.nextNode.2
   let ed := inds.foldl (fun ed e => set ed e (((get? ed e).getD []) ++ [node])) h1.edges
   (node, { h1 with nodes := h1.nodes ++ [(node, inds)], edges := ed })
 
